@@ -2,6 +2,7 @@
 //! inputs and prints canonical `cmd \t arg \t result` lines.  One PRNG (splitmix64) seeded
 //! from the command line drives every choice, so runs replay exactly.
 mod cursor;
+mod lang;
 mod rng;
 mod runtime;
 mod script;
@@ -16,13 +17,23 @@ fn main() {
     if args.len() < 2 { eprintln!("usage: harness <stream> [tier] [seed] | harness eval"); std::process::exit(2); }
     let tier = args.get(2).map(|s| s.as_str()).unwrap_or("quick").to_string();
     let seed: u64 = args.get(3).and_then(|s| s.parse().ok()).unwrap_or(0);
-    let stdout = std::io::stdout();
-    let mut out = std::io::BufWriter::with_capacity(1 << 20, stdout.lock());
+    // portus prints diagnostics to stdout (println! in lang::compile): results go to the file
+    // named by HARNESS_OUT when set, so they cannot be interleaved with that text
+    let sink: Box<dyn Write> = match std::env::var("HARNESS_OUT") {
+        Ok(p) => Box::new(std::fs::File::create(p).expect("HARNESS_OUT")),
+        Err(_) => Box::new(std::io::stdout()),
+    };
+    let mut out = std::io::BufWriter::with_capacity(1 << 20, sink);
     match args[1].as_str() {
         "c04" => wire::run_c04(&tier, seed, &mut out),
         "c07" => wire::run_c07(&tier, seed, &mut out),
         "c08" => cursor::run_c08(&tier, seed, &mut out),
         "loop" | "loopadv" => runtime::run_stream(&args[1], &tier, seed, &mut out),
+        "compile" => lang::run_compile_basic(&tier, seed, &mut out),
+        "c10" => lang::run_c10(&tier, seed, &mut out),
+        "c14" => lang::run_c14(&tier, seed, &mut out),
+        "c20" => lang::run_c20(&tier, seed, &mut out),
+        "limits" => lang::run_limits(&tier, seed, &mut out),
         // re-evaluate given cases (corpus / replay / shrinking): stdin lines `cmd \t arg [\t ...]`
         "eval" => {
             let stdin = std::io::stdin();
@@ -46,6 +57,7 @@ fn eval(cmd: &str, arg: &str) -> String {
     match name {
         "cursor" => cursor::eval(param, arg),
         "loop" => runtime::eval(arg),
+        "compile" => lang::eval(arg),
         "frombuf" => wire::frombuf_str(&util::unhex(arg)),
         "rt" => wire::parse_m(arg).map(|m| wire::rt_str(&m)).unwrap_or_else(|| "UNPARSABLE".into()),
         "concat" => wire::concat_eval(arg),
